@@ -297,6 +297,12 @@ func (tb *TB) liftable(a *Term) bool {
 	return a.Op == "ite" && a.Args[1].IsConst() && a.Args[2].IsConst()
 }
 
+// liftable1: unary operators are pushed through any (shallow) ite so that "convert then select" and
+// "select then convert" have the same normal form.
+func (tb *TB) liftable1(a *Term) bool {
+	return a.Op == "ite" && a.Depth < 40
+}
+
 // Eq is Go's == on scalars (IEEE equality on floats).
 func (tb *TB) Eq(a, b *Term) *Term {
 	if a.S != b.S {
@@ -305,11 +311,18 @@ func (tb *TB) Eq(a, b *Term) *Term {
 	if a.IsConst() && b.IsConst() {
 		return tb.BoolC(constEq(a, b))
 	}
-	if a == b && a.S.K != SFP {
-		return tb.True
+	if a == b {
+		if a.S.K != SFP {
+			return tb.True
+		}
+		return tb.Not(tb.FUn("isnan", a))
 	}
 	if tb.liftable(a) && b.IsConst() {
 		return tb.Ite(a.Args[0], tb.Eq(a.Args[1], b), tb.Eq(a.Args[2], b))
+	}
+	// two selections under the same guard
+	if a.Op == "ite" && b.Op == "ite" && a.Args[0] == b.Args[0] && a.Depth < 40 {
+		return tb.Ite(a.Args[0], tb.Eq(a.Args[1], b.Args[1]), tb.Eq(a.Args[2], b.Args[2]))
 	}
 	if tb.liftable(b) && a.IsConst() {
 		return tb.Ite(b.Args[0], tb.Eq(a, b.Args[1]), tb.Eq(a, b.Args[2]))
@@ -492,6 +505,9 @@ func (tb *TB) Arith(op token.Token, a, b *Term, signed bool) *Term {
 			}
 			if isZero(b) {
 				return a
+			}
+			if r := tb.orAsConcat(a, b); r != nil {
+				return r
 			}
 			return tb.mk("bvor", s, "", a, b)
 		case token.XOR:
@@ -918,6 +934,35 @@ func (tb *TB) Extract(a *Term, hi, lo int) *Term {
 	if (a.Op == "zero_extend" || a.Op == "sign_extend") && hi < a.Args[0].S.W {
 		return tb.Extract(a.Args[0], hi, lo)
 	}
+	if a.Op == "bvlshr" && a.Args[1].IsConst() {
+		k := int(a.Args[1].U)
+		if hi+k < a.S.W {
+			return tb.Extract(a.Args[0], hi+k, lo+k)
+		}
+	}
+	if a.Op == "bvshl" && a.Args[1].IsConst() {
+		k := int(a.Args[1].U)
+		if lo >= k {
+			return tb.Extract(a.Args[0], hi-k, lo-k)
+		}
+		if hi < k {
+			return tb.BVC(w, 0)
+		}
+	}
+	if a.Op == "bvor" || a.Op == "bvand" || a.Op == "bvxor" {
+		// bitwise operators commute with extraction; useful when one side becomes constant
+		x, y := tb.Extract(a.Args[0], hi, lo), tb.Extract(a.Args[1], hi, lo)
+		if x.IsConst() || y.IsConst() {
+			switch a.Op {
+			case "bvor":
+				return tb.Arith(token.OR, x, y, false)
+			case "bvand":
+				return tb.Arith(token.AND, x, y, false)
+			default:
+				return tb.Arith(token.XOR, x, y, false)
+			}
+		}
+	}
 	if a.Op == "concat" {
 		lw := a.Args[1].S.W
 		if hi < lw {
@@ -927,7 +972,7 @@ func (tb *TB) Extract(a *Term, hi, lo int) *Term {
 			return tb.Extract(a.Args[0], hi-lw, lo-lw)
 		}
 	}
-	if tb.liftable(a) {
+	if tb.liftable1(a) {
 		return tb.Ite(a.Args[0], tb.Extract(a.Args[1], hi, lo), tb.Extract(a.Args[2], hi, lo))
 	}
 	return tb.mk("extract", BVSort(w), fmt.Sprintf("%d %d", hi, lo), a)
@@ -939,7 +984,7 @@ func (tb *TB) ZExt(a *Term, w int) *Term {
 	if a.IsConst() {
 		return tb.BVC(w, a.U)
 	}
-	if tb.liftable(a) {
+	if tb.liftable1(a) {
 		return tb.Ite(a.Args[0], tb.ZExt(a.Args[1], w), tb.ZExt(a.Args[2], w))
 	}
 	return tb.mk("zero_extend", BVSort(w), fmt.Sprint(w-a.S.W), a)
@@ -951,7 +996,7 @@ func (tb *TB) SExt(a *Term, w int) *Term {
 	if a.IsConst() {
 		return tb.BVC(w, uint64(a.SInt64()))
 	}
-	if tb.liftable(a) {
+	if tb.liftable1(a) {
 		return tb.Ite(a.Args[0], tb.SExt(a.Args[1], w), tb.SExt(a.Args[2], w))
 	}
 	return tb.mk("sign_extend", BVSort(w), fmt.Sprint(w-a.S.W), a)
@@ -969,6 +1014,115 @@ func (tb *TB) Concat(hi, lo *Term) *Term {
 		}
 	}
 	return tb.mk("concat", BVSort(hi.S.W+lo.S.W), "", hi, lo)
+}
+
+type lane struct {
+	off, w int
+	t      *Term
+}
+
+// lanesOf describes t as disjoint pieces placed at bit offsets with zeros elsewhere (nil,false if t is not of
+// that shape). A plain term is a single full-width lane.
+func (tb *TB) lanesOf(t *Term) ([]lane, bool, bool) {
+	W := t.S.W
+	switch {
+	case t.IsConst():
+		if t.U == 0 {
+			return nil, true, true
+		}
+		return []lane{{0, W, t}}, true, false
+	case t.Op == "zero_extend":
+		l, ok, _ := tb.lanesOf(t.Args[0])
+		return l, ok, true
+	case t.Op == "bvshl" && t.Args[1].IsConst():
+		k := int(t.Args[1].U)
+		l, ok, _ := tb.lanesOf(t.Args[0])
+		if !ok {
+			return nil, false, false
+		}
+		var out []lane
+		for _, x := range l {
+			if x.off+k >= W {
+				continue
+			}
+			if x.off+k+x.w > W {
+				x.t = tb.Extract(x.t, W-x.off-k-1, 0)
+				x.w = W - x.off - k
+			}
+			out = append(out, lane{x.off + k, x.w, x.t})
+		}
+		return out, true, true
+	case t.Op == "concat":
+		lo, ok1, _ := tb.lanesOf(t.Args[1])
+		hi, ok2, _ := tb.lanesOf(t.Args[0])
+		if !ok1 || !ok2 {
+			return nil, false, false
+		}
+		out := append([]lane{}, lo...)
+		for _, x := range hi {
+			out = append(out, lane{x.off + t.Args[1].S.W, x.w, x.t})
+		}
+		return out, true, true
+	case t.Op == "bvor":
+		a, ok1, _ := tb.lanesOf(t.Args[0])
+		b, ok2, _ := tb.lanesOf(t.Args[1])
+		if ok1 && ok2 && !lanesOverlap(a, b) {
+			return append(append([]lane{}, a...), b...), true, true
+		}
+	}
+	return []lane{{0, W, t}}, true, false
+}
+
+func lanesOverlap(a, b []lane) bool {
+	for _, x := range a {
+		for _, y := range b {
+			if x.off < y.off+y.w && y.off < x.off+x.w {
+				return true
+			}
+		}
+	}
+	return false
+}
+
+// orAsConcat rewrites a bitwise OR of non-overlapping shifted/zero-extended pieces (the usual way of assembling
+// a word from bytes) into a concatenation, so that byte-wise round trips collapse syntactically.
+func (tb *TB) orAsConcat(a, b *Term) *Term {
+	la, ok1, s1 := tb.lanesOf(a)
+	lb, ok2, s2 := tb.lanesOf(b)
+	if !ok1 || !ok2 || !(s1 || s2) || lanesOverlap(la, lb) {
+		return nil
+	}
+	all := append(append([]lane{}, la...), lb...)
+	// sort by offset (few elements)
+	for i := 1; i < len(all); i++ {
+		for j := i; j > 0 && all[j].off < all[j-1].off; j-- {
+			all[j], all[j-1] = all[j-1], all[j]
+		}
+	}
+	W := a.S.W
+	var res *Term
+	pos := 0
+	push := func(p *Term) {
+		if res == nil {
+			res = p
+		} else {
+			res = tb.Concat(p, res)
+		}
+	}
+	for _, x := range all {
+		if x.off > pos {
+			push(tb.BVC(x.off-pos, 0))
+		}
+		push(x.t)
+		pos = x.off + x.w
+	}
+	if pos < W {
+		push(tb.BVC(W-pos, 0))
+	}
+	if res == nil || res.S.W != W {
+		return nil
+	}
+	return res
 }
 
 // ConvInt converts an integer term to an integer of width w (Go conversion semantics).
@@ -1000,6 +1154,9 @@ func (tb *TB) FloatToFloat(a *Term, w int) *Term {
 	if a.IsConst() {
 		return tb.FPC(w, a.F)
 	}
+	if tb.liftable1(a) {
+		return tb.Ite(a.Args[0], tb.FloatToFloat(a.Args[1], w), tb.FloatToFloat(a.Args[2], w))
+	}
 	if w == 64 {
 		return tb.mk("to_fp64", F64Sort, "", a)
 	}
@@ -1022,7 +1179,7 @@ func (tb *TB) IntToFloat(a *Term, signed bool, w int, math_ bool) *Term {
 		}
 		return tb.FPC(w, float64(a.U))
 	}
-	if tb.liftable(a) {
+	if tb.liftable1(a) {
 		return tb.Ite(a.Args[0], tb.IntToFloat(a.Args[1], signed, w, math_), tb.IntToFloat(a.Args[2], signed, w, math_))
 	}
 	op := "sbv_to_fp"
@@ -1100,8 +1257,19 @@ func (tb *TB) FUn(op string, a *Term) *Term {
 			return tb.BoolC(math.IsInf(f, 0))
 		}
 	}
-	if tb.liftable(a) && op != "sqrt" {
+	if (tb.liftable(a) && op != "sqrt") || (tb.liftable1(a) && (op == "isnan" || op == "isinf")) {
 		return tb.Ite(a.Args[0], tb.FUn(op, a.Args[1]), tb.FUn(op, a.Args[2]))
+	}
+	if op == "isnan" {
+		switch a.Op {
+		case "to_fp64", "to_fp32", "fp.neg", "fp.abs":
+			return tb.FUn("isnan", a.Args[0])
+		case "sbv_to_fp", "ubv_to_fp", "half_to_fp64x":
+			return tb.False
+		}
+	}
+	if op == "isinf" && a.Op == "to_fp64" {
+		return tb.FUn("isinf", a.Args[0])
 	}
 	if a.S.K == SReal {
 		switch op {
@@ -1169,7 +1337,7 @@ func (tb *TB) FloatBits(a *Term) *Term {
 	if a.Op == "bits_to_fp" {
 		return a.Args[0] // NaN payloads: stated assumption (non-NaN data)
 	}
-	if tb.liftable(a) {
+	if tb.liftable1(a) {
 		return tb.Ite(a.Args[0], tb.FloatBits(a.Args[1]), tb.FloatBits(a.Args[2]))
 	}
 	return tb.mk("fp.to_ieee_bv", BVSort(a.S.W), "", a)
@@ -1184,6 +1352,9 @@ func (tb *TB) FloatFromBits(a *Term) *Term {
 	}
 	if a.Op == "fp.to_ieee_bv" {
 		return a.Args[0]
+	}
+	if tb.liftable1(a) {
+		return tb.Ite(a.Args[0], tb.FloatFromBits(a.Args[1]), tb.FloatFromBits(a.Args[2]))
 	}
 	return tb.mk("bits_to_fp", Sort{SFP, w}, "", a)
 }
